@@ -173,3 +173,21 @@ Proof.
   induction l as [|r l IH]; intros [|r' l'] H; try discriminate; [reflexivity|].
   cbn [all2] in H. apply andb_prop in H as [H1 H2]. f_equal; [apply all2_neqb_eq; exact H1|apply IH; exact H2].
 Qed.
+
+(* ---------- change of units: the covariance of c * X is c^2 times the covariance of X ---------- *)
+Lemma nthF_vscale c r j : nthF ROps (rvscale c r) j = c * nthF ROps r j.
+Proof.
+  unfold nthF, vscale. rsimp2. replace 0 with (c * 0) at 1 by ring.
+  rewrite (map_nth (Rmult c) r 0 j). reflexivity.
+Qed.
+
+Lemma col_of_scaled c j X : col_of ROps j (map (rvscale c) X) = rvscale c (col_of ROps j X).
+Proof. unfold col_of. rewrite map_map. unfold vscale at 2. rewrite map_map. apply map_ext. intros r. apply nthF_vscale. Qed.
+
+Theorem cov_full_change_of_units p X dof c j k : (j < p)%nat -> (k < p)%nat ->
+  entry ROps (cov_full ROps p (map (rvscale c) X) dof) j k = c * c * entry ROps (cov_full ROps p X dof) j k.
+Proof.
+  intros Hj Hk. unfold cov_full.
+  rewrite !entry_mdivs by (unfold ss; rewrite map_length, seq_length; assumption).
+  rewrite !entry_ss by assumption. rewrite !col_of_scaled, rdot_vscale_l, rdot_vscale_r. unfold Rdiv. ring.
+Qed.
